@@ -8,6 +8,7 @@ import (
 	"fmt"
 	"os"
 	"strings"
+	"sync"
 
 	hg "github.com/mosaicnetworks/babble/src/hashgraph"
 	"github.com/mosaicnetworks/babble/src/node/state"
@@ -28,6 +29,7 @@ type Delivered struct {
 // App is the monitored, deterministic application attached to every simulated
 // node through the real InmemProxy (or a socket proxy in the live engine).
 type App struct {
+	mu        sync.Mutex
 	Name      string
 	State     []byte
 	Delivered []*Delivered
@@ -91,6 +93,8 @@ func nextAppState(prev []byte, b *hg.BlockBody) []byte {
 
 // CommitHandler implements proxy.ProxyHandler.
 func (a *App) CommitHandler(block hg.Block) (proxy.CommitResponse, error) {
+	a.mu.Lock()
+	defer a.mu.Unlock()
 	body, jb := deepCopyBody(block.Body)
 	if a.FailCommit > 0 {
 		a.FailCommit--
@@ -125,6 +129,8 @@ func (a *App) CommitHandler(block hg.Block) (proxy.CommitResponse, error) {
 
 // SnapshotHandler implements proxy.ProxyHandler.
 func (a *App) SnapshotHandler(blockIndex int) ([]byte, error) {
+	a.mu.Lock()
+	defer a.mu.Unlock()
 	s, ok := a.Snapshots[blockIndex]
 	if !ok {
 		return nil, fmt.Errorf("no snapshot for block %d", blockIndex)
@@ -134,6 +140,8 @@ func (a *App) SnapshotHandler(blockIndex int) ([]byte, error) {
 
 // RestoreHandler implements proxy.ProxyHandler.
 func (a *App) RestoreHandler(snapshot []byte) ([]byte, error) {
+	a.mu.Lock()
+	defer a.mu.Unlock()
 	a.State = append([]byte{}, snapshot...)
 	a.Restores++
 	a.Epoch++
@@ -143,6 +151,8 @@ func (a *App) RestoreHandler(snapshot []byte) ([]byte, error) {
 
 // StateChangeHandler implements proxy.ProxyHandler.
 func (a *App) StateChangeHandler(s state.State) error {
+	a.mu.Lock()
+	defer a.mu.Unlock()
 	a.States = append(a.States, s)
 	return nil
 }
@@ -153,4 +163,12 @@ func (a *App) digest() string {
 	var b bytes.Buffer
 	fmt.Fprintf(&b, "%x|%d|%d|%d", a.State, a.Restores, len(a.Delivered), a.Epoch)
 	return b.String()
+}
+
+// DeliveredCopy returns a snapshot of the delivered list (for harness threads
+// that run concurrently with the node, i.e. the live engine).
+func (a *App) DeliveredCopy() []*Delivered {
+	a.mu.Lock()
+	defer a.mu.Unlock()
+	return append([]*Delivered{}, a.Delivered...)
 }
